@@ -164,8 +164,11 @@ class Injector:
                             end = time.monotonic() + w.get('wait', 0.3)
                             with watchdog.paused(), watchdog.polling():
                                 while time.monotonic() < end:
-                                    if watchdog.quiescent(gap=0.001):
+                                    # (another thread the harness is still holding has NOT run as far as it can)
+                                    if watchdog.PAUSED[0] <= 1 and watchdog.quiescent(gap=0.001):
                                         break
+                                    if watchdog.PAUSED[0] > 1:
+                                        time.sleep(0.001)
                             continue
                         done = threading.Event()
 
